@@ -336,6 +336,23 @@ func init() {
 					// ---- Equal vs the structural comparer
 					vars := c06variants(r, g)
 					vars = append(vars, g, refmodel.Copy(g), properBounds(o.Geometry(r, 1)), properBounds(o.OfKind(r, gen.KindOf(g), 2)))
+					{
+						// the same value with every zero coordinate spelled with the other sign (equal coordinates)
+						zeros := 0
+						fz := refProject(refmodel.Copy(g), func(p orb.Point) orb.Point {
+							for k := 0; k < 2; k++ {
+								if p[k] == 0 {
+									p[k] = -p[k] // +0 <-> -0
+									zeros++
+								}
+							}
+							return p
+						})
+						if zeros > 0 {
+							vars = append(vars, fz)
+							c.Count("zero_sign_variants", 1)
+						}
+					}
 					for _, v := range vars {
 						want := refmodel.EqualValues(g, v)
 						got, got2 := orb.Equal(g, v), orb.Equal(v, g)
@@ -365,11 +382,14 @@ func init() {
 							c.Fail("", "Equal is not transitive", map[string]interface{}{"a": sv(g), "b": sv(b1), "c": sv(b2)})
 						}
 					}
-					// ---- Bound (finite coordinates only)
-					if o != optsAll && !nan {
+					// ---- Bound (any coordinates that are ordered: infinities included, NaN not)
+					if !nan {
 						fin := true
 						refmodel.Walk(g, func(p orb.Point) { fin = fin && !math.IsInf(p[0], 0) && !math.IsInf(p[1], 0) }, nil)
-						if fin {
+						if !fin {
+							c.Count("bounds_of_values_with_infinite_coordinates", 1)
+						}
+						{
 							want, ok := refmodel.Bound(g)
 							got := g.Bound()
 							c.Eval()
